@@ -990,11 +990,21 @@ class TorControlProtocol(LineOnlyReceiver):
         # print "startCommand",self.code,line
         self.code = int(line[:3])
         # print "startCommand:",self.code
-        if self.command and self.command[2] is not None:
+        if self._wants_line_callback():
             self.command[2](line[4:])
         else:
             self.response = line[4:] + '\n'
         return None
+
+    def _wants_line_callback(self):
+        """
+        True if the line being processed belongs to the reply of an
+        in-flight command that has a per-line callback (and not to an
+        asynchronous 6xx event, which can arrive meanwhile)
+        """
+        if self.code is not None and 600 <= self.code < 700:
+            return False
+        return bool(self.command) and self.command[2] is not None
 
     def _is_continuation_line(self, line):
         "for FSM"
@@ -1017,7 +1027,7 @@ class TorControlProtocol(LineOnlyReceiver):
         if line.startswith('..'):
             # data lines are dot-stuffed on the wire (control-spec 2.4.1)
             line = line[1:]
-        if self.command and self.command[2] is not None:
+        if self._wants_line_callback():
             self.command[2](line)
 
         else:
@@ -1026,7 +1036,7 @@ class TorControlProtocol(LineOnlyReceiver):
 
     def _accumulate_response(self, line):
         "for FSM"
-        if self.command and self.command[2] is not None:
+        if self._wants_line_callback():
             self.command[2](line[4:])
 
         else:
